@@ -115,10 +115,12 @@ def run(ck):
                   "getbytes() raises TypeError instead of returning the file's bytes" % cname)
         if "_getbytes" in own and cname != "bin_stream":
             fn = own["_getbytes"]
-            tests = [norm(n.test) for n in walk_body(fn) if isinstance(n, ast.If) and any(
+            from sa.astutil import less_than as _lt
+            tests = [n.test for n in walk_body(fn) if isinstance(n, ast.If) and any(
                 isinstance(s, ast.Raise) and "IOError" in norm(s) for s in n.body)]
-            upper = any(">" in t and ("self.l" in t or "len(" in t) for t in tests)
-            lower = any("< 0" in t for t in tests)
+            lts = [x for x in (_lt(t, True) for t in tests) if x is not None]          # (lo, hi, strict): raise when lo < hi
+            upper = any(("self.l" in norm(lo) or "len(" in norm(lo)) for (lo, hi, _s) in lts)
+            lower = any(norm(hi) == "0" for (lo, hi, _s) in lts)
             conv = any(isinstance(n, ast.Try) and any(any(isinstance(s, ast.Raise) and "IOError" in norm(s) for s in h.body) for h in n.handlers)
                        for n in walk_body(fn))
             ck.ob("R4", "%s._getbytes" % cname, (upper and lower) or conv, bm.where(fn),
